@@ -89,8 +89,8 @@ NormStr(T, t, s0) ==
        ELSE IF s = <<>> THEN (IF T.keep[t] THEN <<"s">> ELSE NilV) ELSE <<"s">> \o s
 
 \* --- external properties supplied by the caller of NewTransform
-ExtDefined(name) == name \in {"p1", "p2"}
-ExtText(name) == IF name = "p1" THEN "x" ELSE " y "
+ExtDefined(name) == name \in {"p1", "p2", "p4"}                       \* (p4 is defined and empty; p3 is not defined)
+ExtText(name) == IF name = "p1" THEN "x" ELSE IF name = "p4" THEN "" ELSE " y "
 External(T, t) == IF ExtDefined(T.lit[t]) THEN NormStr(T, t, Chars(ExtText(T.lit[t]))) ELSE FailV
 
 \* --- typed sources (results of custom functions): the conversion matrix of resultTypeConversion
